@@ -1,0 +1,28 @@
+//go:build verif
+
+/*
+ * SPDX-License-Identifier: Apache-2.0
+ */
+
+package badger
+
+// Control/projection wrappers for the "sm1" verification family (WriteBatch, transaction
+// size accounting, merge operator). Thin wrappers over production code only.
+
+// VerifTxnSize returns the byte and entry budget Txn.checkSize has accumulated so far.
+func VerifTxnSize(txn *Txn) (count, size int64) { return txn.count, txn.size }
+
+// VerifBatchTxnSize returns the budget of the WriteBatch's current internal transaction.
+func (wb *WriteBatch) VerifBatchTxnSize() (count, size int64) {
+	wb.Lock()
+	defer wb.Unlock()
+	return wb.txn.count, wb.txn.size
+}
+
+// VerifMergeCompact runs the merge operator's background step (MergeOperator.compact) once,
+// synchronously, on the caller's goroutine. The write-back itself is asynchronous
+// (batchSetAsync); callers order it with a later synchronous write (the write channel is FIFO).
+func (op *MergeOperator) VerifMergeCompact() error { return op.compact() }
+
+// VerifNumSubscribers returns the number of registered subscribers (publisher.noOfSubscribers).
+func (db *DB) VerifNumSubscribers() int { return db.pub.noOfSubscribers() }
